@@ -1303,6 +1303,63 @@ def translate_tree_names(src_dir: str) -> str:
     return ''.join(out)
 
 
+# ---- Spreadsheet._get_structure_list (C18): which structures are listed, in which order
+_SS_SORT = ("Expr(value=Call(func=Attribute(value=Name(id='wgstrucs'), attr='sort'), args=[], keywords=[keyword(arg='key', value=Lambda(args=arguments("
+            "posonlyargs=[], args=[arg(arg='wg')], kwonlyargs=[], kw_defaults=[], defaults=[]), body=Subscript(value=Subscript(value=Attribute("
+            "value=Name(id='wg'), attr='path3d'), slice=Constant(value=1)), slice=Constant(value=0))))]))")
+
+
+def _h_ss(tr, e, env):
+    d = dump(e)
+    m = re.fullmatch(r"Call\(func=Name\(id='cast'\), args=\[Name\(id='(WaveguideWriter|MarkerWriter)'\), Subscript\(value=Attribute\(value=Name\(id='d'\), "
+                     r"attr='writers'\), slice=Name\(id='(Waveguide|Marker)'\)\)\], keywords=\[\]\)", d)
+    if m:
+        if (m.group(1), m.group(2)) not in (('WaveguideWriter', 'Waveguide'), ('MarkerWriter', 'Marker')):
+            raise Unsupported('writer looked up under another type')
+        return [], ('(wr_wg d)' if m.group(2) == 'Waveguide' else '(wr_mk d)')
+    if d == "Attribute(value=Name(id='self'), attr='device')":
+        return [], '(ss_device c)'
+    m = re.fullmatch(r"Call\(func=Name\(id='flatten'\), args=\[Attribute\(value=Name\(id='(\w+)'\), attr='obj_list'\)\], keywords=\[\]\)", d)
+    if m:
+        return [], f'(flat_objs {cname(m.group(1))})'
+    if isinstance(e, ast.ListComp) and len(e.generators) == 1 and len(e.generators[0].ifs) == 1 and isinstance(e.elt, ast.Name) \
+            and dump(e.generators[0].target) == dump(e.elt) and dump(e.generators[0].iter) == "Call(func=Name(id='flatten'), args=[Name(id='str_list')], keywords=[])":
+        m = re.fullmatch(r"Call\(func=Name\(id='isinstance'\), args=\[Name\(id='%s'\), Name\(id='(Waveguide|Marker)'\)\], keywords=\[\]\)" % e.elt.id,
+                         dump(e.generators[0].ifs[0]))
+        if m:
+            pred = 'is_waveguide' if m.group(1) == 'Waveguide' else 'is_marker'
+            return [], f'(filter {pred} str_list)'
+    if isinstance(e, ast.BinOp) and isinstance(e.op, ast.Add) and isinstance(e.left, ast.Name) and isinstance(e.right, ast.Name):
+        return [], f'({cname(e.left.id)} ++ {cname(e.right.id)})%list'
+
+
+def _s_ss(tr, s, rest, env, tail):
+    if isinstance(s, ast.Assert):
+        return tr.T(rest, env, tail)
+    if dump(s) == _SS_SORT:
+        # list.sort(key=...) is stable; the key is the first open-shutter y
+        return f'let wgstrucs := sort_by_first_y wgstrucs in {tr.T(rest, env, tail)}'
+
+
+def translate_sheet(src_dir: str) -> str:
+    global METHODS, CFG_ATTRS, STATE_ATTRS, ORACLES, CFG_TYPE, LOCAL_ELT, EXTRA_PARAMS, MONAD, EXPR_HOOKS, STMT_SKIP, RECEIVERS, STMT_HOOKS
+    saved = (METHODS, CFG_ATTRS, STATE_ATTRS, ORACLES, CFG_TYPE, LOCAL_ELT, EXTRA_PARAMS, MONAD, EXPR_HOOKS, STMT_SKIP, RECEIVERS, STMT_HOOKS)
+    out = [PURE_PREAMBLE % ('spreadsheet.py', ' Sheet.Table', 'SsState')]
+    try:
+        mod = ast.parse(pathlib.Path(src_dir, 'spreadsheet.py').read_text())
+        cls = [n for n in mod.body if isinstance(n, ast.ClassDef) and n.name == 'Spreadsheet']
+        if len(cls) != 1:
+            raise Unsupported('class Spreadsheet not found')
+        METHODS = {'_get_structure_list': ('method', [('str_list', 'option (list strct)')], 'list strct')}
+        CFG_ATTRS, STATE_ATTRS, ORACLES = set(), {}, {}
+        CFG_TYPE, LOCAL_ELT, EXTRA_PARAMS, MONAD = 'ss_cfg', {}, '', 'MS'
+        EXPR_HOOKS, STMT_SKIP, RECEIVERS, STMT_HOOKS = [_h_ss], [], {'self'}, [_s_ss]
+        out.append(Tr(cls[0]).method('_get_structure_list').replace('src__get_structure_list', 'src_get_structure_list') + '\n')
+    finally:
+        METHODS, CFG_ATTRS, STATE_ATTRS, ORACLES, CFG_TYPE, LOCAL_ELT, EXTRA_PARAMS, MONAD, EXPR_HOOKS, STMT_SKIP, RECEIVERS, STMT_HOOKS = saved
+    return ''.join(out)
+
+
 # ---- LaserPath.export / helpers.load_parameters (C19): where a file is written / read, how DEFAULT is merged
 _PA_OPEN_W = "With(items=[withitem(context_expr=Call(func=Name(id='open'), args=[Name(id='fn'), Constant(value='wb')], keywords=[]), optional_vars=Name(id='p'))]"
 _PA_OPEN_R = ("With(items=[withitem(context_expr=Call(func=Name(id='open'), args=[Name(id='fp')], keywords=[keyword(arg='mode', value=Constant(value='rb'))]), "
@@ -1606,6 +1663,8 @@ def main(argv):
                 name, text = g, translate_writers(str(src_dir))
             elif g == 'SrcAe.v':
                 name, text = g, translate_append_extend(str(src_dir))
+            elif g == 'SrcSs.v':
+                name, text = g, translate_sheet(str(src_dir))
             elif g == 'SrcTn.v':
                 name, text = g, translate_tree_names(str(src_dir))
             elif g == 'SrcPa.v':
